@@ -1160,7 +1160,8 @@ class QueryBuilder(Selectable, Term):  # type:ignore[misc]
 
         elif 0 < len(self._groupbys) and isinstance(self._groupbys[-1], Rollup):
             # If a rollup was added last, then append the new terms to the previous rollup
-            self._groupbys[-1].args += terms
+            last = self._groupbys[-1]
+            self._groupbys[-1] = Rollup(*last.args, *terms)
 
         else:
             self._groupbys.append(Rollup(*terms))  # type:ignore[arg-type]
